@@ -154,6 +154,11 @@ int glob_files(fstree_t *fs, const char *filename, size_t line_num,
 	tree_node_t *root;
 	int ret;
 
+	/* without a pack directory, input paths are relative to the
+	   current working directory (see pack_files) */
+	if (basepath == NULL)
+		basepath = ".";
+
 	/* fetch the actual target node */
 	root = fstree_get_node_by_path(fs, fs->root, ent->name, true, false);
 	if (root == NULL)
